@@ -84,8 +84,11 @@ func (e *e1Engine) matchIns(ins ssa.Instruction, re string) bool {
 		mu, ok := ins.(*ssa.MapUpdate)
 		return ok && e.re(re[len("mapset:"):]).MatchString(desc(mu.Map, maxDepth)+"["+desc(mu.Key, maxDepth)+"] = "+desc(mu.Value, maxDepth))
 	}
-	_, m := e.callMatches(ins, re)
-	return m
+	if _, m := e.callMatches(ins, re); m {
+		return true
+	}
+	// the construct may sit in a function extracted after the rows were written
+	return helperMust(ins, func(in ssa.Instruction) bool { return e.matchIns(in, re) })
 }
 
 func Success() Target            { return Target{Kind: TSuccess} }
@@ -143,8 +146,13 @@ type e1Engine struct {
 	reCache    map[string]*regexp.Regexp
 }
 
+// theE1: the engine desc consults to render values returned by new helper functions.
+var theE1 *e1Engine
+
 func newE1(a *Analysis) *e1Engine {
-	return &e1Engine{a: a, nonNilMemo: map[string]int{}, reCache: map[string]*regexp.Regexp{}}
+	e := &e1Engine{a: a, nonNilMemo: map[string]int{}, reCache: map[string]*regexp.Regexp{}}
+	theE1 = e
+	return e
 }
 
 func (e *e1Engine) re(s string) *regexp.Regexp {
@@ -585,6 +593,19 @@ func (e *e1Engine) callMatches(ins ssa.Instruction, re string) (string, bool) {
 }
 
 func (e *e1Engine) isTarget(ins ssa.Instruction, t Target, lits []Lit) bool {
+	if t.Kind == TCall || t.Kind == TStore {
+		if e.anyAlternative(ins, func() bool { return e.isTargetHere(ins, t, lits) }) {
+			return true
+		}
+		return helperMay(ins, func(in ssa.Instruction) bool { return e.isTarget(in, t, lits) })
+	}
+	if t.Kind == TRetMatch {
+		return e.anyAlternative(ins, func() bool { return e.isTargetHere(ins, t, lits) })
+	}
+	return e.isTargetHere(ins, t, lits)
+}
+
+func (e *e1Engine) isTargetHere(ins ssa.Instruction, t Target, lits []Lit) bool {
 	switch t.Kind {
 	case TSuccess:
 		if r, ok := ins.(*ssa.Return); ok {
@@ -660,7 +681,15 @@ func (e *e1Engine) isTarget(ins ssa.Instruction, t Target, lits []Lit) bool {
 }
 
 func (e *e1Engine) eval(fn *ssa.Function, row *Row) e1Result {
+	savedLits := curLits
+	curLits = row.Assume
+	if curLits == nil {
+		curLits = []Lit{}
+	}
 	res := e1Result{matched: make([]int, len(row.Assume))}
+	savedMatched := curMatched
+	curMatched = res.matched
+	defer func() { curLits = savedLits; curMatched = savedMatched }()
 	// decide the pruned edge for each If
 	keep := map[*ssa.BasicBlock]int{} // block -> successor index kept (0 true, 1 false)
 	for _, b := range fn.Blocks {
@@ -687,7 +716,7 @@ func (e *e1Engine) eval(fn *ssa.Function, row *Row) e1Result {
 			}
 		}
 		if !direct && len(row.Assume) > 0 {
-			if known, truth := e.helperBool(iff.Cond, row.Assume, res.matched); known {
+			if known, truth := e.boolUnder(iff.Cond, row.Assume, res.matched); known {
 				if truth {
 					keep[b] = 0
 				} else {
@@ -1007,6 +1036,17 @@ func (e *e1Engine) boolUnder(v ssa.Value, lits []Lit, matched []int) (bool, bool
 				t = !t
 			}
 			return true, t
+		}
+	}
+	// a strict order is antisymmetric: if the valuation says lt(b, a), then lt(a, b) is false
+	if at.Swap != "" {
+		for i, l := range lits {
+			if l.Val && e.re(l.Re).MatchString(at.Swap) {
+				if matched != nil {
+					matched[i]++
+				}
+				return true, at.Neg
+			}
 		}
 	}
 	return e.helperBool(v, lits, matched)
